@@ -94,7 +94,6 @@ pub fn execute(case: &str) -> String {
 //        observed: M<method> V<version> P<hex> ct<hex> te<hex> ge<hex|-> gae<hex|-> B <frames>* Z …
 use bytes::Bytes;
 use http_body::Frame;
-use http_body_util::BodyExt;
 use std::future::Future;
 use std::pin::Pin;
 use std::task::{Context, Poll};
@@ -200,7 +199,27 @@ where
     let mut data = Vec::new();
     let mut extra = 0;
     loop {
-        match body.frame().await {
+        // poll with a counting waker that passes wake-ups on to the task's own: a Pending during
+        // which nothing was woken would park this task for ever (`lost-wakeup`)
+        let frame = std::future::poll_fn(|cx| {
+            let (wakes, waker) = counting_waker(Some(cx.waker().clone()));
+            let mut cx2 = Context::from_waker(&waker);
+            let refs_before = std::sync::Arc::strong_count(&wakes);
+            match Pin::new(&mut body).poll_frame(&mut cx2) {
+                Poll::Pending if no_wakeup(&wakes, 0, refs_before) => Poll::Ready(Err(())),
+                Poll::Pending => Poll::Pending,
+                Poll::Ready(f) => Poll::Ready(Ok(f)),
+            }
+        })
+        .await;
+        let frame = match frame {
+            Ok(f) => f,
+            Err(()) => {
+                toks.push("lost-wakeup".to_string());
+                break;
+            }
+        };
+        match frame {
             None => {
                 toks.push("n".to_string());
                 extra += 1;
